@@ -77,6 +77,9 @@ def build_harness(race=False, cmd="vreplay"):
     if p.returncode != 0:
         raise Infra("harness build failed (does the repository still compile with -tags verif?):\n" + p.stdout + p.stderr)
     _built[key] = out
+    if alt:
+        import atexit
+        atexit.register(lambda path=out: os.path.exists(path) and os.remove(path))   # per-process binary of a seeded-change run
     return out
 
 
